@@ -353,6 +353,10 @@ fn template_orders(rep: &mut Report) {
         vec![SumOp::SetWordCount(i32::MIN), SumOp::SetWordCount(i32::MAX), SumOp::ClearWordCount, SumOp::SetWordCount(0)],
         vec![SumOp::SetCreationTime(0), SumOp::SetCreationTime(T1601_NS), SumOp::ClearCreationTime, SumOp::SetCreationTime(1_500_000_000_123_456_700)],
         vec![SumOp::ClearTitle, SumOp::ClearSubject, SumOp::ClearAuthor, SumOp::ClearComments, SumOp::ClearCreatingApp, SumOp::ClearUuid, SumOp::ClearWordCount, SumOp::ClearCreationTime],
+        // strings whose encoded form starts like a byte-order mark
+        vec![SumOp::SetTitle("\u{feff}Title".into()), SumOp::SetComments("\u{feff}".into()), SumOp::SetAuthor("a\u{feff}b".into())],
+        vec![SumOp::SetCodepage(1252), SumOp::SetTitle("ÿþAb".into()), SumOp::SetSubject("þÿAb".into()), SumOp::SetComments("ï»¿café".into()), SumOp::SetAuthor("ÿþ".into())],
+        vec![SumOp::SetCodepage(28591), SumOp::SetTitle("þÿ title".into()), SumOp::SetCodepage(1251), SumOp::SetSubject("яю".into())],
     ];
     for (i, seq) in seqs.iter().enumerate() {
         let mut b = Bench::new();
@@ -377,7 +381,25 @@ fn run_random(rep: &mut Report, seed: u64, case: u64) {
     let n = 5 + g.rng.usize(26);
     let unrepresentable = case % 4 == 3;
     let mut res = Ok(());
+    let db_ops = case % 2 == 1;
     for i in 0..n {
+        if db_ops && g.rng.chance(1, 4) {
+            // a database change BEFORE the next summary edit, in the same flush window
+            let r = guarded(|| {
+                let name = format!("T{}_{}", case % 1000, i);
+                let _ = b.pkg.create_table(name.clone(), vec![msi::Column::build("K").primary_key().int16(), msi::Column::build("V").nullable().string(20)]);
+                let _ = b.pkg.insert_rows(msi::Insert::into(name).row(vec![msi::Value::Int(1), msi::Value::from("row")]));
+                if i % 2 == 0 {
+                    b.pkg.set_database_codepage(msi::CodePage::Utf8);
+                }
+            });
+            b.log.push("(database change)".into());
+            rep.count("database_changes_interleaved");
+            if let Err(p) = r {
+                res = Err(fail(format!("panic/{}", p.signature()), p.message));
+                break;
+            }
+        }
         let mut op = g.summary_op(&b.model);
         if unrepresentable && g.rng.chance(1, 4) {
             // a string the current page cannot hold
